@@ -358,6 +358,54 @@ func hasClass(n *html.Node, c string) bool {
 	return false
 }
 
+// c17Header: what the header line of a goroutine or bucket must show besides the state: the
+// sleep range, the thread lock and the creator frame (file:line, package.function, and in its
+// tooltip the source path and the complete symbol).
+func c17Header(h1, table *html.Node, sig *stack.Signature) error {
+	// the header is the <h1> and what follows it up to the stack table
+	span := func(class string) []*html.Node {
+		var out []*html.Node
+		for n := h1; n != nil && n != table; n = n.NextSibling {
+			out = append(out, findAll(n, func(m *html.Node) bool { return m.Data == "span" && hasClass(m, class) })...)
+		}
+		return out
+	}
+	sl := span("sleep")
+	switch {
+	case sig.SleepMax == 0 && len(sl) != 0:
+		return fmt.Errorf("a sleep range is shown but the signature has none")
+	case sig.SleepMax != 0:
+		want := fmt.Sprintf("[%d mins]", sig.SleepMax)
+		if sig.SleepMin != sig.SleepMax {
+			want = fmt.Sprintf("[%d~%d mins]", sig.SleepMin, sig.SleepMax)
+		}
+		if len(sl) != 1 || normText(textOf(sl[0])) != want {
+			return fmt.Errorf("sleep range %s not shown (%d sleep spans)", want, len(sl))
+		}
+	}
+	if lk := span("locked"); (len(lk) == 1) != sig.Locked || len(lk) > 1 {
+		return fmt.Errorf("locked=%v but %d [locked] marks", sig.Locked, len(lk))
+	}
+	cr := span("created")
+	if len(sig.CreatedBy.Calls) == 0 {
+		if len(cr) != 0 {
+			return fmt.Errorf("a creator is shown but the signature has none")
+		}
+		return nil
+	}
+	if len(cr) != 1 {
+		return fmt.Errorf("the creator frame is not shown (%d 'created' spans)", len(cr))
+	}
+	call := &sig.CreatedBy.Calls[0]
+	txt := normText(textOf(cr[0]))
+	for _, w := range []string{fmt.Sprintf("%s:%d", call.SrcName, call.Line), call.Func.DirName + "." + call.Func.Name, call.RemoteSrcPath, call.Func.Complete} {
+		if !strings.Contains(txt, normText(w)) {
+			return fmt.Errorf("the creator frame does not carry %q: %q", w, txt)
+		}
+	}
+	return nil
+}
+
 func c17Oracle(c C17Snap) error {
 	doc, snap, ag, err := render(&c)
 	if err != nil {
@@ -432,6 +480,9 @@ func c17Oracle(c C17Snap) error {
 				got = textOf(st[0])
 			}
 			return fmt.Errorf("unit %d: state text %q does not round-trip (got %q)", i, u.sig.State, got)
+		}
+		if e := c17Header(h1s[i], tables[i], u.sig); e != nil {
+			return fmt.Errorf("unit %d: %v", i, e)
 		}
 		if ag != nil {
 			f := strings.Fields(textOf(h1s[i]))
@@ -550,6 +601,25 @@ func genC17Call(t *rapid.T, used map[string]bool, fields map[string]bool) C17Cal
 	c.ImportPath = set("Func.ImportPath", genEvilPath(t, used))
 	c.DirName = set("DirName", genEvil(t, used))
 	c.Name = set("Name", genEvil(t, used))
+	if oneIn(t, 3, "methodShape") {
+		// the shapes the documentation-link code looks at: "(*T).M", "(T).M", with the
+		// payload as receiver or as method name, and receivers that contain parentheses
+		switch rapid.IntRange(0, 5).Draw(t, "methodKind") {
+		case 0:
+			c.Name = "(*" + c.Name + ").Serve"
+		case 1:
+			c.Name = "(" + c.Name + ").Serve"
+		case 2:
+			c.Name = "(*T)." + c.Name
+		case 3:
+			c.Name = "(*struct { F func() })." + c.Name
+		case 4:
+			c.Name = "(*T[...])." + c.Name + "-fm"
+		default:
+			c.Name = "(" + c.Name
+		}
+		fields["Name"] = true
+	}
 	c.Exported, c.Main = rapid.Bool().Draw(t, "exported"), oneIn(t, 5, "main")
 	c.Remote = set("Remote", genEvilPath(t, used))
 	c.Local = set("Local", rapid.SampledFrom([]string{"", "", c.Remote, genEvilPath(t, used)}).Draw(t, "local"))
